@@ -2,7 +2,7 @@
    back, with the writer's header defaults and the attribute literals in read-back form. *)
 From Coq Require Import Arith NArith ZArith List Bool Lia.
 From Acme.C08 Require Import DbcAst Chars DbcLex DbcParse DbcWrite Expr ProofsLex ProofsLexPrint ProofsFormat
-  ProofsSections ProofsFile ProofsPok.
+  ProofsSections ProofsFile ProofsPok ProofsGood.
 Import ListNotations.
 Local Open Scope N_scope.
 
@@ -58,6 +58,16 @@ Corollary parse_write_equiv : forall f, wf_file up f ->
 Proof.
   intros f Hwf. exists (norm_file fmt hex f). split; [apply parse_write; exact Hwf|].
   unfold equiv. apply norm_file_idem.
+Qed.
+
+(* parse_write_parse: for every accepted text, writing the parsed document and parsing it again
+   yields an equivalent document *)
+Theorem parse_write_parse :
+  (forall v b, prs v = Some b -> fin b = true) ->
+  forall t f, parse ud prs hex t = OOk f ->
+  exists f', parse ud prs hex (write fmt hex f) = OOk f' /\ equiv f' f.
+Proof.
+  intros Hfin t f H. apply parse_write_equiv. eapply parse_output_expressible; eauto.
 Qed.
 
 End RoundTrip.
